@@ -199,6 +199,12 @@ func (f *renameOnCloseFile) Abort() error {
 	if err := os.Remove(f.finalPath); err != nil && !os.IsNotExist(err) {
 		errs = append(errs, err)
 	}
+	// fsync the directory so the removals survive power loss: a rename that
+	// had already happened (Close failing at its directory fsync) must not
+	// come back without the removal that undid it.
+	if err := syncDir(filepath.Dir(f.finalPath)); err != nil {
+		errs = append(errs, err)
+	}
 	verifFS("abort.done", f.finalPath)
 	return errors.Join(errs...)
 }
@@ -225,14 +231,26 @@ func (fs *FileSystemDataStore) TombstoneFile(ctx context.Context, filePointerByt
 	finalPath := string(filePointerBytes)
 
 	var errs []error
+	removed := false
 	verifFS("tomb.rm_final", finalPath)
-	if err := os.Remove(finalPath); err != nil && !os.IsNotExist(err) {
+	if err := os.Remove(finalPath); err == nil {
+		removed = true
+	} else if !os.IsNotExist(err) {
 		errs = append(errs, err)
 	}
 	if strings.HasSuffix(finalPath, ".dat") {
 		tempPath := strings.TrimSuffix(finalPath, ".dat") + ".tmp"
 		verifFS("tomb.rm_tmp", tempPath)
-		if err := os.Remove(tempPath); err != nil && !os.IsNotExist(err) {
+		if err := os.Remove(tempPath); err == nil {
+			removed = true
+		} else if !os.IsNotExist(err) {
+			errs = append(errs, err)
+		}
+	}
+	// fsync the directory so the removal survives power loss; nothing to
+	// make durable when the pointer had no artifact left.
+	if removed {
+		if err := syncDir(filepath.Dir(finalPath)); err != nil {
 			errs = append(errs, err)
 		}
 	}
@@ -310,9 +328,19 @@ func (fs *FileSystemDataStore) GetMaybeFilesForQuery(ctx context.Context, query 
 
 func (fs *FileSystemDataStore) Update(ctx context.Context, writes []WriteOperation, deletes []DeleteOperation) error {
 	// writes are no-op, it's stored in the files
+	removed := false
 	for _, delete := range deletes {
 		verifFS("update.remove", string(delete.FilePointerBytes))
-		os.Remove(string(delete.FilePointerBytes))
+		if err := os.Remove(string(delete.FilePointerBytes)); err == nil {
+			removed = true
+		}
+	}
+	// fsync the directory so the removals survive power loss: once a merge
+	// has committed, its sources must not reappear next to its output. Best
+	// effort like the removals themselves — the files are already gone, so a
+	// failure here must not be reported as an uncommitted update.
+	if removed {
+		syncDir(fs.rootDir)
 	}
 	verifFS("update.done", fs.rootDir)
 	return nil
